@@ -19,6 +19,8 @@ func (c *Conn) getBigDeflater() *bigDeflater {
 	if c.isServer {
 		return c.config.bdPool.Get()
 	}
+	// the client streams through its own compressor, which Broadcast also uses: hold its lock until putBigDeflater
+	c.deflater.cpsLocker.Lock()
 	return (*bigDeflater)(c.deflater.cpsWriter)
 }
 
@@ -27,7 +29,9 @@ func (c *Conn) getBigDeflater() *bigDeflater {
 func (c *Conn) putBigDeflater(d *bigDeflater) {
 	if c.isServer {
 		c.config.bdPool.Put(d)
+		return
 	}
+	c.deflater.cpsLocker.Unlock()
 }
 
 // 拆分io.Reader为小切片
